@@ -1041,6 +1041,10 @@ def run_c07(ctx, extended=False):
             vs, _ = judge_roundtrip(ctx, cfg, list(f32_samples(ctx)), F32)
             ctx.violations += vs
         ctx.violations += sweep32(ctx, cfg)
+        if cfg == 'fr' and 'frap' in getattr(ctx, 'side_cfgs', []) and 'frap' not in ctx.cfgs:
+            short = [l for l in keep32 if len(l) <= 40 and l[:1] != b'-' or len(l) <= 30]
+            extra = [b'16777217.000000001', b'16777218.999999999', b'3.5e38', b'3.4028235e38', b'3.4028236e38', b'7.038531e-26', b'1e-46', b'0.1', b'-16777217.000000001']
+            ctx.violations += judge_f32_via_value(ctx, 'frap', extra + short[::max(1, len(short) // 600)])
         if cfg == 'fr':
             binary, out = build_internal()
             if binary is None:
@@ -1049,6 +1053,19 @@ def run_c07(ctx, extended=False):
             else:
                 ctx.violations += check_algorithm(ctx, cfg, keep64, keep32, binary)
                 ctx.violations += check_bigint(ctx, cfg, binary)
+
+def judge_f32_via_value(ctx, cfg, lits):
+    """float_roundtrip + arbitrary_precision: an f32 read out of a Value (owned, BY REFERENCE, and from the text) — the Number holds the literal text, so every
+    route must round the decimal ONCE to f32 (no detour through f64); three-way relation of C16's harness plus the extracted model"""
+    from checks import fv
+    import checks.typed as T
+    cases = []
+    for tyt in ('f', 'af', 'S(61:f)', 'of'):
+        t = T.parse_ty_text(tyt)
+        for l in lits:
+            doc = {'f': l, 'of': l, 'af': b'[' + l + b']', 'S(61:f)': b'{"a":' + l + b'}'}[tyt]
+            cases.append((T.enc_ty(t), t, doc, 'f32-via-value'))
+    return fv.judge_cases(ctx, cfg, cases)
 
 def sweep64(ctx, cfg):
     """strided f64 sweeps inside the harness (round trip only; the text properties are re-checked in Rust)"""
@@ -1078,5 +1095,5 @@ LEX_TB = ['ryu (float printing) is an external crate treated as an oracle: valid
           'hardware/compiler IEEE-754 arithmetic for the two fast-path operations and for u64 -> float casts',
           'the Python exact oracle in tools/checks/lex.py (big-integer round to nearest even)']
 
-register('C07', cfgs={'quick': ['fr'], 'thorough': ['fr', 'frap', 'def']}, run=run_c07, judge=judge_c07,
+register('C07', cfgs={'quick': ['fr'], 'thorough': ['fr', 'frap', 'def']}, side_cfgs=['frap'], run=run_c07, judge=judge_c07,
          extended=lambda ctx: run_c07(ctx, extended=True), trusted_base=LEX_TB)
